@@ -139,8 +139,8 @@ class Announcer(object):
         results = []
         for w in W:
             stmt_txt = norm(node_expr(cfg, w))
-            if exceptions and stmt_txt in exceptions:
-                self.ctx.exception(rule, '%s `%s`' % (f.construct, stmt_txt), exceptions[stmt_txt])
+            if exceptions and id(cfg.stmt[w]) in exceptions:
+                self.ctx.exception(rule, '%s `%s`' % (f.construct, stmt_txt), exceptions[id(cfg.stmt[w])])
                 continue
             path = cfg.path_avoiding(w, EXIT, avoid=set(B) - {w}, labels_excluded=('exc', 'raise'), pruned_edges=pruned)
             ok = path is None and bool(B)
